@@ -408,9 +408,18 @@ func c09Registers(r *Run) {
 			}
 		}
 	}
+	// the enclosing path's own step after a filter: its error is still raised (the suppression used for
+	// the condition's operands must not leak), for every condition kind, with failing left/right operands
+	for _, c := range base {
+		for _, pf := range []*Expr{eRoot(), eRoot(sAnyArray())} {
+			es = append(es, pf.withSteps(sFilter(c.e), sKey("zz")), pf.withSteps(sFilter(c.e), sKey("a"), sMethod("double")), pf.withSteps(sFilter(c.e), sIndex(sub1(eInt(5)))))
+		}
+	}
 	for _, d := range Docs(3, stdScalars, stdKeys) {
 		vals = append(vals, d)
 	}
+	vals = append(vals, mustDoc(`[{"a":1},{"a":1,"b":1}]`, "float64"), mustDoc(`[{"a":1,"b":1},{"a":1}]`, "float64"), mustDoc(`[{"a":"x","b":1},{"a":1,"b":1}]`, "float64"),
+		mustDoc(`[{"a":["x"],"b":1},{"a":[0],"b":1}]`, "float64"), mustDoc(`[{"a":1},{"a":2,"b":1}]`, "float64"), mustDoc(`[{"a":2,"b":1},{"a":1}]`, "float64"), mustDoc(`{"a":[1,"x"],"b":2}`, "float64"))
 	vals = append(vals, mustDoc(`{"a":{"a":1,"b":1},"b":1}`, "float64"), mustDoc(`[{"a":[1,2],"b":1},{"a":1,"b":2}]`, "float64"))
 	r.Bound("register_paths", 2*len(es))
 	r.Bound("register_documents", len(vals))
